@@ -24,6 +24,8 @@ DOCS = [
     'w1z',
     'English w1z text \\foreignlanguage{german}{deutscher w2z Text mit mehr als zwei Wörtern} and more w3z.\n'
     '\\selectlanguage{russian} w4z w5z\n',
+    ''.join('Line %d of a long paragraph with w%dz and some more words, %s\n' % (i, i, 'to be continued' if i % 5 else 'end.\n')
+            for i in range(1, 19)),
 ]
 MODES = ['plain', 'json', 'xml', 'xml-b', 'html', 'html-link', 'plain-ml', 'json-single', 'plain-ml1', 'xml-ml1']
 TYPES = ['int', 'str', 'null', 'list', 'dict', 'bool', 'float', 'negint', 'bigstr']
@@ -88,7 +90,7 @@ def delp(obj, path):
     del get(obj, path[:-1])[path[-1]]
 
 
-def faults(answer, plain, step=1):
+def faults(answer, plain, step=1, layouts=60):
     """-> list of (fault id, bytes, exit status)"""
     out = []
     ps = [p for p in paths(answer) if p[0] == 'matches' and (len(p) < 2 or p[1] in (0, 1))] + [('matches',)]
@@ -128,6 +130,27 @@ def faults(answer, plain, step=1):
         out.append(('truncate:%d' % k, raw[:k], 0))
     for k in range(max(0, len(raw2) - 60), len(raw2)):
         out.append(('truncate-utf8:%d' % k, raw2[:k], 0))
+    # valid answers with many layouts of matches: long matches over several lines with short ones inside or behind,
+    # nested, identical, adjacent, zero-length, given in any order
+    lr = random.Random(len(plain) * 7919 + 13)
+    for k in range(layouts):
+        a = copy.deepcopy(answer)
+        ms = []
+        for j in range(lr.randint(2, 8)):
+            o = lr.randrange(0, max(1, n))
+            ln = lr.choice([0, 1, 3, 8, lr.randint(0, n), lr.randint(0, n), n, 60, 200])
+            ln = max(0, min(ln, n - o))
+            mm = copy.deepcopy(answer['matches'][min(1, len(answer['matches']) - 1)])
+            mm.update(offset=o, length=ln, message='LAY%d.%d' % (k, j))
+            b = max(0, o - 10)
+            mm['context'] = {'text': plain[b:o + ln + 10].replace('\n', ' '), 'offset': o - b, 'length': ln}
+            ms.append(mm)
+        if lr.random() < .8:
+            ms.sort(key=lambda x: x['offset'])
+        if lr.random() < .3:
+            ms.append(copy.deepcopy(ms[0]))
+        a['matches'] = ms
+        out.append(('layout:%d' % k, json.dumps(a).encode(), 0))
     out.append(('garbage:text', b'Exception in thread "main" java.lang.OutOfMemoryError\n', 1))
     out.append(('garbage:binary', bytes(range(256)), 0))
     out.append(('garbage:bom', b'\xef\xbb\xbf' + raw, 0))
@@ -147,6 +170,7 @@ class C15(core.Check):
             'matches is mutated: delete each field, change each field to each of %d types, perturb offset / length / '
             'context values (-1, 0, n-1, n, n+1.., +-10^6), hostile strings (line breaks, markup, NUL, very long) in '
             'every string field, wrong shapes, every byte truncation (also inside multi-byte characters), garbage, '
+            'valid answers with random layouts of 2-8 matches (long over several lines, nested, identical, zero-length, unsorted), '
             'non-zero exit, missing command; x modes %s. quick: a stratified sample; thorough: all. Judged: exit 0 and '
             'all reported locations inside the file, or exit 1 with the shell\'s own diagnostic; no traceback. '
             'non-trivial = a mutated (non-valid) answer; distinct = distinct (document, fault, mode)'
@@ -198,7 +222,7 @@ class C15(core.Check):
                 by.setdefault(c[3], []).append(c)
             pick = []
             share = {'delete': 160, 'type': 500, 'value': 200, 'string': 160, 'shape': 80, 'truncate': 260,
-                     'truncate-utf8': 120, 'garbage': 40, 'exit': 8, 'valid': 16, 'command-missing': 8}
+                     'truncate-utf8': 120, 'garbage': 40, 'exit': 8, 'valid': 16, 'command-missing': 8, 'layout': 400}
             for k, lst in sorted(by.items()):
                 rnd.shuffle(lst)
                 pick += lst[:share.get(k, 20)]
@@ -295,12 +319,14 @@ class C15(core.Check):
             detail.update(location=bad, report=out[:600])
             return dict(ok=False, nt=True, key='location-outside-file:' + str(bad[0]), cnt=cnt, obs=None, detail=detail)
         cnt['reports_in_file'] = 1
+        if stratum == 'layout':
+            cnt['layout_reports'] = 1
         return dict(ok=True, nt=fid != 'valid', key=None, cnt=cnt,
                     obs=dict(fault=fid, mode=mode, outcome='report', size=len(out)))
 
     def quotas(self, tier):
         q = {'clean_errors': 300, 'reports_in_file': 100, 'valid_answer_runs': 8}
-        for k in ('delete', 'type', 'value', 'string', 'shape', 'truncate', 'truncate-utf8', 'garbage'):
+        for k in ('delete', 'type', 'value', 'string', 'shape', 'truncate', 'truncate-utf8', 'garbage', 'layout'):
             q['fault_' + k] = 30
         for m in MODES:
             q['mode_' + m] = 60
